@@ -1,0 +1,17 @@
+//go:build verif
+
+package multiproof
+
+import "github.com/crate-crypto/go-ipa/bandersnatch/fr"
+
+// Verification hooks (build tag "verif").
+
+// VerifGroupPolynomials exposes the per-evaluation-point aggregation of the prover.
+func VerifGroupPolynomials(fs [][]fr.Element, powersOfR []fr.Element, zs []uint8) [256][]fr.Element {
+	return groupPolynomialsByEvaluationPoint(fs, powersOfR, zs)
+}
+
+// VerifLabels returns the package-level Fiat-Shamir labels (for mutation fingerprints).
+func VerifLabels() [][]byte {
+	return [][]byte{labelC, labelZ, labelY, labelD, labelE, labelT, labelR, labelDomainSep}
+}
